@@ -19,6 +19,10 @@ func checkC03(w *World, r *Report) {
 	if m == nil {
 		return
 	}
+	// an error that travels through a future is still the error its body raised, for every reader
+	r.include("C03.future-", "C10.", "an error raised in a future's body reaches every catch around a deref unchanged and as an error", checkC10, func(rule string) bool {
+		return rule == "C10.redeposit" || rule == "C10.single-outcome"
+	})
 	r.rule("C03.once", "the value of the try body and of the catch handler is returned / continued as a form exactly once: no result of an evaluating call flows back into the evaluator (shared with C01.once)")
 	r.rule("C03.finally-dom", "the finally evaluation is registered (defer) exactly once, outside any inner loop, in a block that dominates every exit of the try region reachable after the body has run")
 	r.rule("C03.finally-pure", "the deferred finally closure stores to no result variable of EVAL and discards the results of the body helper")
@@ -426,9 +430,19 @@ func ruleObject(m *evalModel, r *Report, e *Engine, reg map[*ssa.BasicBlock]bool
 		if nl, ok := binds.Call.Args[1].(*ssa.Call); ok && nl.Call.StaticCallee() != nil && nl.Call.StaticCallee().Name() == "NewList" {
 			elems := sliceLiteralElems(nl.Call.Args[0])
 			if len(elems) == 1 {
-				k := e.keyOf(elems[0]).String()
-				d := describeVal(e, elems[0], 0)
-				okBind = strings.HasSuffix(k, ".Val[1]") || d == "catchBind"
+				leaves := e.producers(elems[0], map[ssa.Value]bool{}, 0)
+				nl := 0
+				okBind = true
+				for _, lf := range leaves {
+					if isNilConst(lf) {
+						continue // no catch clause: the handler is not reached
+					}
+					nl++
+					if !strings.HasSuffix(e.keyOf(lf).String(), ".Val[1]") {
+						okBind = false
+					}
+				}
+				okBind = okBind && nl > 0
 			}
 		}
 		r.check(okBind, "C03.catch-scope", m.EVAL, "single binding of the handler scope", binds.Pos(), "the catch clause's operand 1", "the handler scope does not bind exactly the catch symbol")
@@ -925,6 +939,38 @@ func checkC08(w *World, r *Report) {
 	}
 	r.floor("C08.iter", "evaluating calls before the dispatch", n, 3)
 	macroTailRule(w, r, "C08.lisp")
+	// loop-carried state besides the form and the scope
+	r.rule("C08.loop-state", "the evaluation loop carries only the form and the scope from one iteration to the next: the context it runs under stays the one EVAL was given (a context derived from the previous iteration's context grows a chain that Done/Err/Value descend recursively, one host frame per iteration, and that is never released)")
+	{
+		nls := 0
+		for _, b := range m.EVAL.Blocks {
+			if !m.header.Dominates(b) || m.stepBlocks[b] {
+				continue
+			}
+			for _, in := range b.Instrs {
+				switch x := in.(type) {
+				case *ssa.Store:
+					if m.ctxCell != nil && cellOf(x.Addr) == m.ctxCell {
+						nls++
+						reach := blockReaches(b, m.header, false)
+						r.check(!reach || x.Val == ssa.Value(m.ctxParam), "C08.loop-state", m.EVAL, "context replaced inside the evaluation loop", x.Pos(), "does not reach the next iteration", "the loop continues under a context built in this iteration: every tail call lengthens the context chain, which the cancellation check and every blocking builtin walk recursively")
+					}
+				case *ssa.Phi:
+					if b == m.header && isContext(x.Type()) {
+						nls++
+						okp := true
+						for _, ed := range x.Edges {
+							if ed != ssa.Value(m.ctxParam) && ed != ssa.Value(x) {
+								okp = false
+							}
+						}
+						r.check(okp, "C08.loop-state", m.EVAL, "loop-carried context", x.Pos(), "always the context EVAL was given", "the loop continues under a context built in an earlier iteration: every tail call lengthens the context chain, which the cancellation check and every blocking builtin walk recursively")
+					}
+				}
+			}
+		}
+		r.add("C08.loop-state", m.EVAL, "contexts carried around the evaluation loop", m.EVAL.Pos(), "ok", fmt.Sprintf("%d assignment(s) to the context inside the loop examined", nls))
+	}
 	// informational: defers inside the loop
 	for _, b := range m.EVAL.Blocks {
 		for _, in := range b.Instrs {
@@ -1098,6 +1144,53 @@ func checkC12(w *World, r *Report) {
 			}
 		}
 		r.check(okSet, "C12.flag", m.EVAL, "value bound by defmacro", token.NoPos, "SetMacro() of the evaluated function", "defmacro does not bind the macro-flagged copy of the evaluated function")
+		// one binding, of the marked closure: the name never holds the unmarked function, not even for a moment
+		r.rule("C12.defmacro-once", "defmacro evaluates its function operand itself (not a def form built around it) and binds the name exactly once, to the marked copy: another evaluation on the same environment never finds the name bound to the unmarked function, and a rejected definition leaves an earlier macro in place")
+		sets, nev := 0, 0
+		inReg := map[*ssa.BasicBlock]bool{}
+		for _, b := range m.regionBlocks("defmacro") {
+			inReg[b] = true
+			for _, in := range b.Instrs {
+				if ci, ok := in.(ssa.CallInstruction); ok && ci.Common().IsInvoke() && (ci.Common().Method.Name() == "Set" || ci.Common().Method.Name() == "SetNT" || ci.Common().Method.Name() == "Update") && strings.HasSuffix(ci.Common().Value.Type().String(), "types.EnvType") {
+					sets++
+				}
+			}
+		}
+		r.check(sets == 1, "C12.defmacro-once", m.EVAL, "bindings made by defmacro", token.NoPos, "exactly one", fmt.Sprintf("%d binding writes in the defmacro region", sets))
+		var leaves func(v ssa.Value, depth int) []ssa.Value
+		leaves = func(v ssa.Value, depth int) []ssa.Value {
+			var out []ssa.Value
+			for _, lf := range e.producers(v, map[ssa.Value]bool{}, 0) {
+				if p, ok := lf.(*ssa.Parameter); ok && depth < 4 {
+					if args := m.argsFor(p); len(args) > 0 {
+						for _, a := range args {
+							out = append(out, leaves(a, depth+1)...)
+						}
+						continue
+					}
+				}
+				out = append(out, lf)
+			}
+			return out
+		}
+		for _, ec := range m.evalCalls() {
+			if !inReg[ec.call.Block()] || ec.ast == nil {
+				continue
+			}
+			nev++
+			okOp := true
+			what := ""
+			for _, lf := range leaves(ec.ast, 0) {
+				if isNilConst(lf) {
+					continue
+				}
+				if k := e.keyOf(lf).String(); !strings.HasSuffix(k, ".Val[2]") {
+					okOp, what = false, describeVal(e, lf, 0)
+				}
+			}
+			r.check(okOp, "C12.defmacro-once", ec.fn, "form evaluated by defmacro", ec.call.Pos(), "operand 2 of the defmacro form", "defmacro evaluates a form other than its function operand ("+what+"): a form built around the operand (a def, say) binds the name before the macro flag is set")
+		}
+		r.floor("C12.defmacro-once", "evaluating calls in the defmacro region", nev, 1)
 	} else {
 		r.undecided("C12.flag", m.EVAL, "defmacro region", token.NoPos, "special form not found")
 	}
@@ -1220,6 +1313,39 @@ func checkC12(w *World, r *Report) {
 	}
 	aud.run()
 	r.floor("C12.post-expand", "guarded uses of the expanded form before the dispatch", r.count("C12.post-expand"), 3)
+	// the expansion is evaluated, whatever kind of form it is
+	r.rule("C12.expansion-evaluated", "before the dispatch EVAL hands a form back as its own value only when that form is known to be a list (the empty list evaluates to itself): every other form a macro expands to - symbol, vector, hash-map, set - goes through eval_ast, so the call means what its expansion means")
+	{
+		listT := w.ByPath[modPath+"/types"].Types.Scope().Lookup("List").Type()
+		nxe := 0
+		for _, b := range m.EVAL.Blocks {
+			if !(m.header.Dominates(b) && m.regionOf(b) == "" && !m.stepBlocks[b]) || len(b.Instrs) == 0 {
+				continue
+			}
+			ret, ok := b.Instrs[len(b.Instrs)-1].(*ssa.Return)
+			if !ok || len(ret.Results) != 2 {
+				continue
+			}
+			v := resolveRet(ret.Results[0])
+			if ev := resolveRet(ret.Results[1]); !isNilConst(ev) || isNilConst(v) {
+				continue
+			}
+			// the value is a form (the loop-carried form or an expansion), not the result of an evaluation
+			isForm := v == ssa.Value(m.astPhi)
+			if ex, ok := v.(*ssa.Extract); ok {
+				if c, ok := ex.Tuple.(*ssa.Call); ok && c.Call.StaticCallee() == m.macroexpand {
+					isForm = true
+				}
+			}
+			if !isForm {
+				continue
+			}
+			nxe++
+			okT, how := e.hasType(v, listT, b)
+			r.check(okT, "C12.expansion-evaluated", m.EVAL, "form returned unevaluated before the dispatch", ret.Pos(), "known to be a list: "+how, "a form that need not be a list is handed back as its own value: a macro that expands to a vector, hash-map or set gives its expansion unevaluated, not what evaluating the expansion gives")
+		}
+		r.floor("C12.expansion-evaluated", "forms returned unevaluated before the dispatch", nxe, 1)
+	}
 	r.Assumptions = append(r.Assumptions, "call-equals-expansion as a relation between runs and the algebra of the quasiquote transform beyond its dispatch shape are not decided")
 }
 
@@ -1777,6 +1903,21 @@ func checkC18(w *World, r *Report) {
 	}
 	sort.Strings(missing)
 	r.check(len(declared) >= 4 && len(missing) == 0, "C18.enum", m.EVAL, "command switch", token.NoPos, fmt.Sprintf("all %d declared commands handled", len(declared)), "commands without a case (reach the panic): "+strings.Join(missing, ","))
+	// the stepper this module ships answers for every form it is shown
+	r.rule("C18.stepper-total", "the stepper the module ships (debugger.(*Debugger).Stepper and what it calls inside the module) cannot panic on any form or scope it is shown: every index, assertion, nil dereference and division in it is guarded (a panic in the callback surfaces inside EVAL as an error the program does not produce without a stepper)")
+	if st := w.Fn("debugger", "(*Debugger).Stepper"); st == nil {
+		r.undecided("C18.stepper-total", nil, "debugger.(*Debugger).Stepper", token.NoPos, "method no longer resolves")
+	} else {
+		aud := newAudit(w, e, r, "C18.stepper-total")
+		aud.exempt = exemptionsC18
+		aud.computeClosure([]*ssa.Function{st}, func(f *ssa.Function) bool {
+			p := fnPkgPath(f)
+			return p == modPath || p == modPath+"/reader"
+		})
+		aud.propagateNil()
+		aud.run()
+		r.floor("C18.stepper-total", "sites that can panic in the shipped stepper", r.count("C18.stepper-total"), 3)
+	}
 	engineRule(w, r, e)
 	r.Assumptions = append(r.Assumptions, "host-supplied callbacks other than the repository's own debugger engine do not touch interpreter state; output produced by the stepper (ANSWER:/ERROR: lines) is an effect of the debugger, not of the program")
 }
@@ -1989,11 +2130,12 @@ func tryShapeRule(m *evalModel, r *Report) {
 		r.undecided("C03.shape", m.EVAL, "form", token.NoPos, "cannot name the dispatched form")
 		return
 	}
+	n := 0
+	scan := func(fn *ssa.Function, inScope func(*ssa.BasicBlock) bool, form string) {
 	X := form + ".(types.List).Val"
 	last1 := X + "[len(" + X + ")-1]"
 	last2 := X + "[len(" + X + ")-2]"
-	lastAlt := []string{last1, X + "[1]", X + "[2]", "φ"} // `last`/`prelast` are phis over the length switch
-	_ = last2
+	lastAlt := []string{last1, last2, X + "[1]", X + "[2]", "φ"} // `last`/`prelast` are phis over the length switch
 	want := map[string]bool{}
 	add := func(f string, args ...interface{}) { want[fmt.Sprintf(f, args...)] = true }
 	add("%s[1:]", X)
@@ -2003,9 +2145,8 @@ func tryShapeRule(m *evalModel, r *Report) {
 		add("%s.(types.List).Val[2:]", l)
 		add("%s.(types.List).Val[1:]", l)
 	}
-	n := 0
-	for _, b := range m.EVAL.Blocks {
-		if !reg[b] {
+	for _, b := range fn.Blocks {
+		if !inScope(b) {
 			continue
 		}
 		for _, in := range b.Instrs {
@@ -2029,9 +2170,14 @@ func tryShapeRule(m *evalModel, r *Report) {
 			c := canonVal(m.e, sl)
 			// which clause tests hold here
 			hasCatch, hasFinally := false, false
-			for _, d := range m.EVAL.Blocks {
-				if iff := blockIf(d); iff != nil && reg[d] {
-					if _, s, ok := strEq(iff.Cond); ok && edgeDominates(d, 0, b) {
+			for _, d := range fn.Blocks {
+				if iff := blockIf(d); iff != nil && inScope(d) {
+					cond, edge := iff.Cond, 0
+					if bo, ok := cond.(*ssa.BinOp); ok && bo.Op == token.NEQ {
+						// x != "catch": the clause is present on the false edge
+						cond, edge = &ssa.BinOp{Op: token.EQL, X: bo.X, Y: bo.Y}, 1
+					}
+					if _, s, ok := strEq(cond); ok && edgeDominates(d, edge, b) {
 						if s == "catch" {
 							hasCatch = true
 						}
@@ -2055,7 +2201,28 @@ func tryShapeRule(m *evalModel, r *Report) {
 				}
 				detail += fmt.Sprintf(" (catch clause: %v, finally clause: %v)", hasCatch, hasFinally)
 			}
-			r.check(okShape, "C03.shape", m.EVAL, "operands taken for a part of the try form: "+nz(m.w.srcExpr(sl), c), sl.Pos(), detail, "the slice "+detail+" does not match the grammar of the try form: a body form, the catch symbol or a handler form is dropped or misplaced")
+			r.check(okShape, "C03.shape", fn, "operands taken for a part of the try form: "+nz(m.w.srcExpr(sl), c), sl.Pos(), detail, "the slice "+detail+" does not match the grammar of the try form: a body form, the catch symbol or a handler form is dropped or misplaced")
+		}
+	}
+	}
+	scan(m.EVAL, func(b *ssa.BasicBlock) bool { return reg[b] }, form)
+	// functions the region hands the whole form to that only take it apart
+	doneSplit := map[*ssa.Function]bool{}
+	for _, b := range m.EVAL.Blocks {
+		if !reg[b] {
+			continue
+		}
+		for _, in := range b.Instrs {
+			c, ok := in.(*ssa.Call)
+			if !ok || !m.formSplitter(c.Call.StaticCallee()) || doneSplit[c.Call.StaticCallee()] {
+				continue
+			}
+			for i, a := range c.Call.Args {
+				if canonVal(m.e, a) == form {
+					doneSplit[c.Call.StaticCallee()] = true
+					scan(c.Call.StaticCallee(), func(*ssa.BasicBlock) bool { return true }, fmt.Sprintf("p%d", i))
+				}
+			}
 		}
 	}
 	r.floor("C03.shape", "operand splits of the try form", n, 6)
